@@ -15,6 +15,7 @@ import (
 
 type c14Prog struct {
 	files map[string]string
+	tpl   *pongo2.Template // when set, every execution of the case uses this one compiled template (else a fresh compile each)
 }
 
 func c14Gen(r *Rng) c14Prog {
@@ -152,10 +153,14 @@ type c14Result struct {
 
 // c14Exec compiles the program afresh and runs one entry point.
 func c14Exec(p c14Prog, which int, failAt int, w *recWriter) (c14Result, error) {
-	set, _ := newSet(p.files)
-	tpl, err := set.FromFile("/main.tpl")
-	if err != nil {
-		return c14Result{}, err
+	tpl := p.tpl
+	if tpl == nil {
+		set, _ := newSet(p.files)
+		var err error
+		tpl, err = set.FromFile("/main.tpl")
+		if err != nil {
+			return c14Result{}, err
+		}
 	}
 	tk := &c14Ticker{failAt: failAt}
 	var res c14Result
@@ -180,6 +185,14 @@ var c14Entry = []string{"Execute", "ExecuteBytes", "ExecuteWriter", "ExecuteWrit
 
 func c14Run(c *C) {
 	p := c14Gen(c.R)
+	if c.R.Bool() {
+		// one compiled template lives through all the failing and successful executions of this case
+		set, _ := newSet(p.files)
+		if tpl, err := set.FromFile("/main.tpl"); err == nil {
+			p.tpl = tpl
+			c.Cover("one_template_through_all_faults")
+		}
+	}
 	// fault-free reference
 	var good [4]c14Result
 	for which := 0; which < 4; which++ {
@@ -441,7 +454,7 @@ func init() {
 		},
 		Run: c14Run,
 		Rule: "random programs whose output nodes call tick(i) (a context function) interleaved with text, loops, if, filter and spaceless bodies, ifchanged, with, block, set, includes (static/lazy/in a loop), local and imported macros, inheritance with block.Super; fresh compile per entry point. " +
-			"(1) Execute, ExecuteBytes, ExecuteWriter, ExecuteWriterUnbuffered give the same bytes and errors; (2) fault sweep 1: for EVERY k in 1..M (M = tick calls of a good run) tick fails on its k-th call: all four fail with the same message, Execute/ExecuteBytes return no output, the recording writer of ExecuteWriter saw zero Write calls, what the unbuffered writer received is a prefix of the fault-free output; afterwards successful runs are unchanged; " +
+			"in half of the cases one compiled template is used for everything that follows, in the other half every execution compiles afresh; (1) Execute, ExecuteBytes, ExecuteWriter, ExecuteWriterUnbuffered give the same bytes and errors; (2) fault sweep 1: for EVERY k in 1..M (M = tick calls of a good run) tick fails on its k-th call: all four fail with the same message, Execute/ExecuteBytes return no output, the recording writer of ExecuteWriter saw zero Write calls, what the unbuffered writer received is a prefix of the fault-free output; afterwards successful runs are unchanged; " +
 			"(3) fault sweep 2: the caller's writer fails at its j-th Write for every j: ExecuteWriter returns that very error (errors.Is) and the writer received only a prefix. distinct_nontrivial = distinct programs swept.",
 		MinNontriv:  500,
 		Assumptions: []string{"ExecuteWriterUnbuffered is not required to report writer errors (the property only requires it of ExecuteWriter)"},
